@@ -278,11 +278,38 @@ class ExprMixin:
                 w = self.ev(nxt, fr)
                 v = smt.simp(z3.If(go_on, w, v))
                 continue
+            if False and fr.is_spec and self.sub_depth > 0:
+                merged = self.merge_operand(go_on, nxt, fr, v, is_and)
+                if merged is not None:
+                    v = merged
+                    continue
             if self.branch(go_on):
                 v = self.ev(nxt, fr)
             else:
                 return v
         return v
+
+    def merge_operand(self, go_on, nxt, fr, v, is_and=True):
+        """pure spec code: value of `nxt` under the assumption go_on, merged with v by an If-term (no solver call
+        for the short-circuit itself); None when the operand can raise (then the caller forks as usual)"""
+        def thunk():
+            self.assume(go_on)
+            return self.ev(nxt, fr)
+        rs = self.sub_explore(thunk, pure=True)
+        if any(k == 'raise' for _, k, _, _ in rs):
+            return None
+        if not rs:
+            return v
+        if smt.tag_of(v) == 'bool' and all(smt.tag_of(w) == 'bool' for _, _, w, _ in rs):
+            # boolean operands: keep the conjunctive / disjunctive structure (facts can be learned from it)
+            bv = smt.simp(Val.b(v))
+            rest = z3.Or(*[z3.And(g, Val.b(smt.simp(w))) for g, _, w, _ in rs])
+            # the guards of rs all contain go_on
+            return smt.simp(Val.bool(z3.And(bv, rest) if is_and else z3.Or(bv, rest)))
+        out = v
+        for guard, _, w, _ in reversed(rs):
+            out = z3.If(guard, w, out)
+        return smt.simp(out)
 
     def ev_UnaryOp(self, e, fr):
         v = self.ev(e.operand, fr)
